@@ -3042,6 +3042,13 @@ class ReturnControlToECUResponse(
             bytes([InputOutputControlParameter.returnControlToECU]) + control_states,
         )
 
+    @classmethod
+    def _from_pdu(cls, pdu: bytes) -> Self:
+        if pdu[3] != InputOutputControlParameter.returnControlToECU:
+            raise ValueError("The inputOutputControlParameter does not match")
+
+        return cls(from_bytes(pdu[1:3]), pdu[4:])
+
     def matches(self, request: UDSRequest) -> bool:
         return super().matches(request) and isinstance(request, ReturnControlToECURequest)
 
@@ -3089,6 +3096,13 @@ class ResetToDefaultResponse(
             data_identifier,
             bytes([InputOutputControlParameter.resetToDefault]) + control_states,
         )
+
+    @classmethod
+    def _from_pdu(cls, pdu: bytes) -> Self:
+        if pdu[3] != InputOutputControlParameter.resetToDefault:
+            raise ValueError("The inputOutputControlParameter does not match")
+
+        return cls(from_bytes(pdu[1:3]), pdu[4:])
 
     def matches(self, request: UDSRequest) -> bool:
         return super().matches(request) and isinstance(request, ResetToDefaultRequest)
@@ -3138,6 +3152,13 @@ class FreezeCurrentStateResponse(
             bytes([InputOutputControlParameter.freezeCurrentState]) + control_states,
         )
 
+    @classmethod
+    def _from_pdu(cls, pdu: bytes) -> Self:
+        if pdu[3] != InputOutputControlParameter.freezeCurrentState:
+            raise ValueError("The inputOutputControlParameter does not match")
+
+        return cls(from_bytes(pdu[1:3]), pdu[4:])
+
     def matches(self, request: UDSRequest) -> bool:
         return super().matches(request) and isinstance(request, FreezeCurrentStateResponse)
 
@@ -3184,6 +3205,13 @@ class ShortTermAdjustmentResponse(
             data_identifier,
             bytes([InputOutputControlParameter.shortTermAdjustment]) + control_states,
         )
+
+    @classmethod
+    def _from_pdu(cls, pdu: bytes) -> Self:
+        if pdu[3] != InputOutputControlParameter.shortTermAdjustment:
+            raise ValueError("The inputOutputControlParameter does not match")
+
+        return cls(from_bytes(pdu[1:3]), pdu[4:])
 
 
 class ShortTermAdjustmentRequest(
